@@ -192,8 +192,32 @@ func SetClockNs(ns int64)       {}
 func SleptNs() int64            { return 0 }
 func TimeOf(ns int64) time.Time { return time.Unix(0, ns) }
 
+// TempDir: a scratch directory for files the code under test writes (removed
+// when the replayed case is over); under the engine a fixed path of the file model.
+func TempDir() string {
+	d, err := os.MkdirTemp("/var/tmp", "zzsym-root-")
+	if err != nil {
+		panic(err)
+	}
+	mu.Lock()
+	tempDirs = append(tempDirs, d)
+	mu.Unlock()
+	return d
+}
+
+var tempDirs []string
+
 func runOne(c replayCase, fn func()) (res result) {
 	res = result{ID: c.ID, Harness: c.Harness}
+	defer func() {
+		mu.Lock()
+		ds := tempDirs
+		tempDirs = nil
+		mu.Unlock()
+		for _, d := range ds {
+			os.RemoveAll(d)
+		}
+	}()
 	cur = &res
 	model = c.Model
 	nameCnt = map[string]int{}
